@@ -8,3 +8,4 @@ CONSTANTS
   MaxProbes = 0
   DotNameHandled = TRUE
   RpcPosCheckedFirst = TRUE
+  Utf8LabelsHandled = TRUE
